@@ -16,7 +16,7 @@ KNOWN = "known_C17"
 SHARD = 40
 RULE = ("histories over real workspaces: a universe (homogeneous / heterogeneous / nested / textually colliding / "
         "awkward strings: spaces, dots, unicode, empty, '.', '..', the leaf name 'job', separators) of 0..7 initial jobs, "
-        "then 1..4 create_linked_view calls (job_ids None / subsets incl. empty / path None, False, format strings with "
+        "values that vanish under normpath ('.', '') with two-key format paths, then 1..4 create_linked_view calls (job_ids None / subsets incl. empty / path None, False, format strings with "
         "{{auto}}, invalid specs / absolute or cwd-relative prefix / two alternating prefixes) interleaved with add, remove "
         "and re-key of jobs.  Every create_linked_view call is one case: world snapshot before, the call, snapshot after, "
         "the same call again (mutating syscalls counted), and a from-scratch build under a fresh sibling prefix; the model "
@@ -71,7 +71,8 @@ def rand_scalar(rng, evil):
 
 def gen_universe(rng):
     """Returns (name, list of state points)."""
-    kind = rng.choice(["homog", "homog", "homog2", "hetero", "nested", "collide", "jobkey", "single", "empty"])
+    kind = rng.choice(["homog", "homog", "homog2", "hetero", "nested", "collide", "jobkey", "single", "empty",
+                       "vanish", "vanish"])
     evil = rng.choice([0.0, 0.0, 0.04, 0.12])
     n = rng.choice([0, 1, 2, 2, 3, 3, 4, 5, 7])
     sps = []
@@ -116,8 +117,15 @@ def gen_universe(rng):
     elif kind in ("single", "empty"):
         for _ in range(n):
             sps.append({rng.choice(KEYS): rand_scalar(rng, evil)})
+    elif kind == "vanish":
+        # two keys whose values may vanish under normpath: different format-path strings, one link location
+        for _ in range(max(n, 2)):
+            sps.append({"a": rng.choice(VANISH), "b": rng.choice(VANISH)})
     return kind, sps
 
+
+VANISH = [".", "", "q", "x"]
+VANISH_SPECS = ["v/{a}/{b}", "{a}/{b}", "{a}/x/{b}", "v/{a}/{b}", None]
 
 PATH_SPECS = [None, None, None, None, None, None, False, "{{auto}}", "x/{{auto}}", "{a}", "a/{a}", "p/{a}/q",
               "{a}/{{auto}}", "id/{job.id}", "c_{a}", "{zz}", "{{auto:_}}", 5, "a/{a}/b/{b}", "{job.sp.a}"]
@@ -127,7 +135,7 @@ def gen_history(rng):
     kind, sps = gen_universe(rng)
     steps = []
     nviews = rng.choice([1, 2, 2, 3, 3, 4])
-    path = rng.choice(PATH_SPECS)
+    path = rng.choice(VANISH_SPECS if kind == "vanish" else PATH_SPECS)
     live = len(sps)
     for v in range(nviews):
         if v > 0:
@@ -155,7 +163,7 @@ def gen_history(rng):
                                   "key": rng.choice(KEYS[:3] + [JOB] * (kind == "jobkey")),
                                   "val": typed(rand_scalar(rng, 0.03))})
         if rng.random() < 0.25:
-            path = rng.choice(PATH_SPECS)
+            path = rng.choice(VANISH_SPECS if kind == "vanish" else PATH_SPECS)
         r = rng.random()
         if r < 0.6:
             ids = None
@@ -205,6 +213,11 @@ def fixed_histories():
     h("fix-emptyval", [{"a": ""}, {"a": "x"}], [dict(V, path="p/{a}/q"), dict(V, path="p/{a}/q")])
     h("fix-nested-abs", [{"a": {"b": ROOTMARK + "/a/esc"}}, {"a": {"b": "x"}}], [V, V])
     h("fix-nested-sep", [{"a": {"b": "x/y"}}, {"a": {"b": "x"}}], [V, V])
+    VS = dict(V, path="v/{a}/{b}")
+    base3 = [{"a": "x y", "b": "1.5"}, {"a": "x y", "b": "été"}, {"a": "z", "b": "1.5"}]
+    h("fix-vanish-dot", base3 + [{"a": ".", "b": "q"}], [VS, {"op": "add", "sp": typed({"a": "q", "b": "."})}, VS])
+    h("fix-vanish-empty", base3 + [{"a": "", "b": "q"}], [VS, {"op": "add", "sp": typed({"a": "q", "b": ""})}, VS])
+    h("fix-vanish-mixed", [{"a": ".", "b": "q"}, {"a": "", "b": "q"}, {"a": "q", "b": "x"}], [VS, dict(V, path="{a}/{b}")])
     h("fix-two-prefixes", [{"a": 1}, {"a": 2}, {"a": 3}],
       [V, dict(V, prefix="w", ids=[0, 1]), {"op": "remove", "i": 1}, V, dict(V, prefix="w")], rel=True)
     return H
